@@ -1297,6 +1297,17 @@ func jsonUnmarshal(m *Machine, fn *ssa.Function, args []Value) Value {
 			return &IfaceV{}
 		}
 	}
+	if b, ok := under(elem).(*types.Basic); ok && b.Kind() == types.String && data.IsConst() {
+		// a concrete payload decoded into a string: the real decoder decides
+		var out string
+		if err := json.Unmarshal([]byte(data.S), &out); err != nil {
+			return m.newError(smt.StrC("json: "+err.Error()), nil)
+		}
+		if strings.TrimSpace(data.S) != "null" {
+			target.store(smt.StrC(out))
+		}
+		return &IfaceV{}
+	}
 	if data.IsConst() {
 		// concrete payloads follow encoding/json exactly for the cases that can be decided here
 		trimmed := strings.TrimSpace(data.S)
